@@ -568,6 +568,12 @@ impl<'a> Model<'a> {
                     if let Some(t) = truth {
                         self.insts[child].tags_ok.push(t);
                     }
+                } else if truth.is_none() {
+                    // (c) the target does not name anything in the simulated tree at this
+                    // moment, so a read could only fail: whether the front end attempts it is
+                    // immaterial (it may recognise `a.inc/` as the open file `a.inc` by comparing
+                    // paths component-wise, say). The include must still be reported.
+                    self.insts[child].fail_kind = None;
                 } else if found.is_none() && !Path::new(&spelled).is_absolute() {
                     // (b) no search directory has the file: C18 is silent on whether the
                     // path is then tried as given; not reading it is accepted.
